@@ -316,8 +316,8 @@ def _op_sites(repo, m, cls, fn) -> List[ast.Call]:
             continue
         f0 = c.func
         if isinstance(f0, ast.Attribute):
-            if f0.attr in OPNAMES and (c.args or c.keywords):
-                out.append(c)
+            if f0.attr in OPNAMES and (c.args or c.keywords or f0.attr == "explain"):
+                out.append(c)       # explain() takes its options by default: a bare x.explain() is the operation too
             elif f0.attr == "keys" and len(c.args) == 1:
                 out.append(c)
             elif f0.attr == "run" and not c.args and isinstance(f0.value, ast.Call) and astu.short_name(f0.value).endswith("Request"):
